@@ -79,7 +79,7 @@ PROPS['C07'] = dict(
     title='Brute-force mode reports the exact optimum of every statistic it prints',
     functions=[BF + 'moregre', BF + 'moregen', BF + 'get_matching_pairs', BF + 'is_valid', BF + 'run', BF + 'get_results',
                MOD + '_get_max_rank', MOD + 'get_max_lec_upper_quota', MOD + '_get_cost', MOD + '_get_cost_sq', MOD + '_get_degree',
-               MOD + '_get_profile', MOD + '_get_lec_abs_diffs', MOD + '_get_max_lec_abs_diff', MOD + '_get_sum_lec_abs_diff'],
+               MOD + '_get_profile', MOD + '_get_lec_abs_diffs', MOD + '_get_max_lec_abs_diff', MOD + '_get_sum_lec_abs_diff', MOD + '_get_profile_string'],
     lemmas=['SUM/le', 'SUM/const', 'C07/greedy-order-total', 'C07/generous-order-total'],
     level='other',
     level_text='proved for all instance sizes: comparators are the strict lexicographic orders (first / last difference), total on profiles of one length; is_valid == Valid (incl. closure rule); get_matching_pairs; the statistic helpers == the measures; run never raises (every index, comparison and callee precondition), every profile has one entry per rank; fold over the enumeration with a ghost history of the nine statistics: optimal_size = -1 iff no enumerated assignment is valid and otherwise the maximum valid size; each of the eight further accumulators is BOTH a bound (no maximum-size / valid assignment has a better value) AND attained by an enumerated assignment of that class - the initial values (zero profile, largest upper quota, that times the number of lecturers) are shown to dominate every valid assignment (count bounds, sum lemmas), so they never win wrongly; get_results prints Infeasible iff optimal_size = -1 and otherwise each stored optimum.  NOT proved: that itertools.product enumerates every assignment (T11), and the layout of the profile string',
@@ -87,7 +87,7 @@ PROPS['C07'] = dict(
     budget={'quick': 20, 'thorough': 240},
     trusted=['T11 itertools.product enumerates every tuple over range(m) once (completeness of the enumeration is assumed; the fold is proved over whatever it enumerates)',
              'T12 datetimes modelled as seconds; strftime opaque',
-             '_get_profile_string modelled as a pure text function of the profile'],
+             'callers see _get_profile_string as a pure text function of the profile; its body is verified separately ("<", one number per rank in rank order, ">"), the two compose by function identity'],
     assumptions=['well-formed instance: 0 <= target <= upper quota for every lecturer (precondition of run; for generated files this is C09/quota-order), at least one lecturer',
                  'ModelWF precondition from the reader (C10)',
                  'the correspondence between enumerated tuples and matchings (T11 + get_matching_pairs contract) is not composed into one statement; the bounded stand-in compares with an independent enumeration'])
@@ -161,13 +161,13 @@ PROPS['C14'] = dict(
 PROPS['C11'] = dict(
     title='Printed statistics and listings describe the printed matching',
     functions=[MOD + f for f in ('_get_max_rank', '_get_cost', '_get_cost_sq', '_get_degree', '_get_profile', '_get_lec_abs_diffs', '_get_max_lec_abs_diff',
-                                 '_get_sum_lec_abs_diff', '_get_matching_string', '_get_matching_size', '_get_pair_assignments', 'get_results', '_get_detailed_student_info')],
+                                 '_get_sum_lec_abs_diff', '_get_matching_string', '_get_matching_size', '_get_pair_assignments', 'get_results', '_get_detailed_student_info', '_get_profile_string')],
     lemmas=['SUM/ext', 'LISTSET/empty-append', 'LISTSET/iterate'], level='other',
     level_text='statistic helpers verified against the measures of the property statement for every list of matched pairs (sums, counts per rank / lecturer, maxima with witnesses; lecturer cost 0 when a pair has no lecturer rank); the matching line has one blank-separated entry per student = project of that student\'s matched pair or 0; Model.get_results prints size / cost / degree equal to the helper results for the list read back from the solution, in both formats.  NOT proved deductively (bounded stand-in): the exact text layout of the profile string and of the three long-format listings (_get_profile_string and _get_detailed_* are modelled as pure text functions)',
     harness=True, bound='<= 4 students x <= 3 projects x <= 3 lecturers, 0-2 criteria, short and long format',
     budget={'quick': 20, 'thorough': 300},
     trusted=['T3 reported values are integral', 'T5/T6 str(int) name model'],
-    assumptions=['long format: the per-student listing is verified (one line per student in student order, showing the student, project and lecturer numbers of that student\'s matched pair, or "no assignment"; lines are strings of a fixed template with integer holes, T5); the per-project and per-lecturer listings and the layout of the profile string: bounded stand-in only'])
+    assumptions=['long format: the per-student listing is verified (one line per student in student order, showing the student, project and lecturer numbers of that student\'s matched pair, or "no assignment"; lines are strings of a fixed template with integer holes, T5); the profile line is verified as "<", one number per rank in rank order, ">" (callers print that function\'s result: composition by function identity); the per-project and per-lecturer listings: bounded stand-in only'])
 PROPS['C10'] = dict(
     title='The solver reads an instance file as the instance the file denotes',
     functions=[FIO + '_get_simple_pref_list_and_ranks', FIO + '_create_pairs_row', FIO + '_create_student_ranks', FIO + '_set_lecturers', FIO + '_set_lecturer_ranks',
